@@ -377,6 +377,12 @@ func check(prop, tier string) int {
 		if f, ok := known[o.Name]; ok {
 			line := fmt.Sprintf("KNOWN-FINDING: property=%s %s %s", prop, o.Name, f.Desc)
 			fmt.Println(line)
+			if tier == "thorough" {
+				// canary: the recorded finding must still reproduce on the real code
+				path := writeReplay(e, prop, o)
+				line += fmt.Sprintf(" [replay %s confirmed=%v]", path, replayConfirmed(path))
+				fmt.Printf("NOTE: known finding %s replay confirmed=%v\n", o.Name, replayConfirmed(path))
+			}
 			knownOut = append(knownOut, line)
 			continue
 		}
